@@ -20,6 +20,7 @@ import (
 
 type faultStats struct {
 	ops, calls, runs, surfaced, harmless int64
+	retries                              int64 // retries of a failed write operation on the same live instance
 	mu                                   sync.Mutex
 	sites                                map[string]int
 }
@@ -447,6 +448,38 @@ func faultOracle(s *Spec, keys [][]byte, stats *faultStats, pairs bool) func(w *
 						}
 					}
 				}
+				// a reported failure, then a retry of the same call on the same live instance without faults (transient
+				// error): if the retry reports success, the instance must read like the state after the operation
+				// Only for the operations that (re)establish the instance's state from the storage - Load, LoadVersion,
+				// LoadVersionForOverwriting: a successful call defines the state completely, whatever failed before. After a
+				// failed SaveVersion / DeleteVersionsTo the API defines no state for the instance (DESIGN 6), nothing is demanded.
+				if pv == nil && opErr != nil && faulted && liveV == nil && (op.Kind == OpReopen || op.Kind == OpLoadVersion || op.Kind == OpLVFO) {
+					wB.VS.FailAt = nil
+					var retryErr error
+					rv := safely("retry of "+op.String(), func() *Violation {
+						if op.Kind == OpReopen {
+							_, retryErr = wB.Tree.Load()
+						} else {
+							retryErr = rawApply(wB, op)
+						}
+						return nil
+					})
+					atomic.AddInt64(&stats.retries, 1)
+					if rv != nil {
+						liveV = viol("fault-write", "%s with storage call %d of %d (inside %s) failing reported an error; the retry on the same instance panicked: %s", op, i, n, site, rv.Detail)
+						liveV.Facts = map[string]any{"op": opNames[op.Kind], "site": site, "symptom": "retry-panic", "class": "other", "reported": "reported an error"}
+					} else if retryErr == nil {
+						wB.M = postM.Clone()
+						for _, o := range []Oracle{oracleReads(probes), oracleFast(probes)} {
+							o := o
+							if vv := safely("oracle "+o.Name, func() *Violation { return o.Fn(wB) }); vv != nil {
+								liveV = viol("fault-write", "%s with storage call %d of %d (inside %s) failing reported an error; the retry on the same instance succeeded, but the instance does not read like the state after the operation: %s: %s", op, i, n, site, vv.Oracle, vv.Detail)
+								liveV.Facts = map[string]any{"op": opNames[op.Kind], "site": site, "symptom": "live-instance-after-retry", "class": "other", "reported": "reported an error"}
+								break
+							}
+						}
+					}
+				}
 				wB.Dead = true
 				wB.Close()
 				if liveV != nil {
@@ -598,7 +631,7 @@ func init() {
 		}
 		sort.Strings(sites)
 		r.Extra = map[string]any{"fault_enumeration": map[string]any{"operations_under_fault": stats.ops, "storage_calls_counted": stats.calls, "faulted_executions": stats.runs,
-			"error_surfaced": stats.surfaced, "fault_harmless_same_result": stats.harmless}}
+			"error_surfaced": stats.surfaced, "fault_harmless_same_result": stats.harmless, "retries_on_the_live_instance_after_a_reported_error": stats.retries}}
 		if survey {
 			for _, x := range sites {
 				fmt.Println("SURVEY", x)
